@@ -47,7 +47,7 @@ ASSUMPTIONS = [
     "relative input/output paths are generated only in script mode, where CMake's cwd and the child's cwd coincide",
     "the find_package(cminx) packaging path (cminx-config.cmake.in + PyInstaller) is not covered",
 ]
-PROBES = ["same_call_in_a_second_process", "two_calls_one_process", "extra_repeated_token", "stub_ok", "stub_exit_nonzero", "stub_killed", "stub_stderr_exit0", "stub_missing", "stub_noexec", "real_peer",
+PROBES = ["path_with_colon", "256_failing_files", "stub_slow_31s", "same_call_in_a_second_process", "two_calls_one_process", "extra_repeated_token", "stub_ok", "stub_exit_nonzero", "stub_killed", "stub_stderr_exit0", "stub_missing", "stub_noexec", "real_peer",
           "real_peer_failing_input", "driver_project", "driver_script", "input_dir", "input_file", "input_missing",
           "extra_with_space", "extra_with_special", "extra_flag_value", "relative_paths"]
 
@@ -61,6 +61,7 @@ case "$STUB_PLAN" in
   exit:*) exit "${STUB_PLAN#exit:}";;
   kill:*) kill -"${STUB_PLAN#kill:}" $$; sleep 5;;
   stderr) echo "warning: something odd" >&2; exit 0;;
+  slow:*) sleep "${STUB_PLAN#slow:}"; exit 0;;
 esac
 exit 0
 '''
@@ -68,7 +69,7 @@ exit 0
 
 def swarm(rng, tier):
     return {"mode": rng.choice(["stub", "stub", "stub", "real"]), "project": rng.random() < 0.3,
-            "max_extra": rng.choice([0, 2, 4])}
+            "max_extra": rng.choice([0, 2, 4]), "slow": rng.random() < 0.05, "many_bad": rng.random() < 0.5}
 
 
 def strategy(cfg):
@@ -82,15 +83,21 @@ def strategy(cfg):
         for rel, c in tree.items():
             files["w/proj/" + rel] = c
         files["w/bad.cmake"] = "function(f a)\nendfunction(\n"
-        kinds = ["dir", "dir", "file", "missing"] + (["badfile"] if mode == "real" else [])
+        files["w/api:v2/mm.cmake"] = "function(zqcolon a)\nendfunction()\n"
+        kinds = ["dir", "dir", "file", "missing", "dir_colon"] + (["badfile"] if mode == "real" else [])
+        if mode == "real" and cfg.get("many_bad") and draw(st.integers(0, 5)) == 0:
+            kinds = ["many_bad"]
+            for i_ in range(256):
+                files[f"w/manybad/b{i_:03d}.cmake"] = "function(f a)\nendfunction(\n"
         kind = draw(st.sampled_from(kinds))
         cm = sorted(f for f in refs.tree_files(tree) if refs.is_cmake(f))
         target = {"dir": "w/proj", "file": "w/proj/" + (draw(st.sampled_from(cm)) if cm else "zfix.cmake"),
-                  "missing": "w/nothing-here", "badfile": "w/bad.cmake"}[kind]
+                  "missing": "w/nothing-here", "badfile": "w/bad.cmake", "dir_colon": "w/api:v2",
+                  "many_bad": "w/manybad"}[kind]
         cwd = draw(st.sampled_from(["w", "", "elsewhere"]))
         rel_ok = driver == "script"
         inp = posixpath.relpath(target, cwd or ".") if rel_ok and draw(st.booleans()) else "{BASE}/" + target
-        out_t = "w/out dir" if draw(st.integers(0, 4)) == 0 else "w/out"
+        out_t = ["w/out dir", "w/docs:html", "w/out", "w/out", "w/out"][draw(st.integers(0, 4))]
         outp = posixpath.relpath(out_t, cwd or ".") if rel_ok and draw(st.booleans()) else "{BASE}/" + out_t
         if mode == "real":
             # only argument lists the real CLI understands
@@ -111,6 +118,8 @@ def strategy(cfg):
                 extra = extra + [draw(st.sampled_from(extra))]      # a repeated token (two -e flags, equal values)
             plan = draw(st.sampled_from(["ok", "ok", "ok", "exit:1", "exit:3", "exit:255", "kill:9", "kill:11", "stderr",
                                          "missing", "noexec"]))
+            # (a peer that needs 31 s and then succeeds - plan "slow:31" - is exercised by the pinned probe
+            #  findings/P-C19-slow-peer.json on every run; drawing it here would cost minutes per check)
         second = None
         if mode == "stub" and plan == "ok" and draw(st.integers(0, 3)) == 0:
             # a second, different call in the same CMake process (arguments differing only in punctuation)
@@ -120,7 +129,7 @@ def strategy(cfg):
                         return x.replace(a, b)
                 return x + "_2"
             second = {"output": twist(outp), "extra": [twist(e) if i == len(extra) - 1 else e for i, e in enumerate(extra)]}
-        twice = second is None and plan in ("ok", "real") and kind in ("dir", "file") and draw(st.integers(0, 3)) == 0
+        twice = second is None and plan in ("ok", "real") and kind in ("dir", "file", "dir_colon") and draw(st.integers(0, 3)) == 0
         return {"mode": mode, "driver": driver, "files": files, "input": inp, "input_kind": kind, "output": outp,
                 "extra": extra, "cwd": cwd, "plan": plan, "second": second, "twice": twice}
     return world()
@@ -220,7 +229,12 @@ def evaluate(spec, ctx):
         is_dir = os.path.isdir(inp_abs)
         want_argv = [inp] + (["-r"] if is_dir else []) + extra + ["-o", outp]
         ctx.probes["driver_" + spec["driver"]] += 1
-        ctx.probes["input_" + {"dir": "dir", "file": "file", "missing": "missing", "badfile": "file"}[spec["input_kind"]]] += 1
+        ctx.probes["input_" + {"dir": "dir", "file": "file", "missing": "missing", "badfile": "file", "dir_colon": "dir",
+                               "many_bad": "dir"}[spec["input_kind"]]] += 1
+        if ":" in inp or ":" in outp:
+            ctx.probes["path_with_colon"] += 1
+        if spec["input_kind"] == "many_bad":
+            ctx.probes["256_failing_files"] += 1
         if len(set(extra)) < len(extra):
             ctx.probes["extra_repeated_token"] += 1
         if any(" " in e for e in extra):
@@ -264,9 +278,9 @@ def evaluate(spec, ctx):
                     f_.write(b"\x01".join(data_[:1] + [b""]))
             calls = parse_record(rec)
             sentinel = os.path.exists(os.path.join(base, "sentinel.txt"))
-            peer_fails = plan not in ("ok", "stderr")
+            peer_fails = plan not in ("ok", "stderr") and not plan.startswith("slow")
             ctx.probes[{"ok": "stub_ok", "stderr": "stub_stderr_exit0", "missing": "stub_missing", "noexec": "stub_noexec"}.get(
-                plan, "stub_killed" if plan.startswith("kill") else "stub_exit_nonzero")] += 1
+                plan, "stub_killed" if plan.startswith("kill") else ("stub_slow_31s" if plan.startswith("slow") else "stub_exit_nonzero"))] += 1
             ctx.note_case(core.spec_digest([body.replace(base, "{BASE}"), plan]), nontriv)
             ctx.last_trace = core.spec_digest([calls and [a.replace(base, "{BASE}") for a in calls[0]], p.returncode != 0, sentinel])
             ctx.trace_digests.add(ctx.last_trace)
@@ -318,7 +332,7 @@ def evaluate(spec, ctx):
             ctx.note_case(core.spec_digest([body.replace(base, "{BASE}"), "real"]), nontriv)
             ctx.last_trace = core.spec_digest([sorted(via_cmake), p.returncode != 0, p2.returncode != 0, sentinel])
             ctx.trace_digests.add(ctx.last_trace)
-            if spec["input_kind"] in ("missing", "badfile"):
+            if spec["input_kind"] in ("missing", "badfile", "many_bad"):
                 ctx.probes["real_peer_failing_input"] += 1
                 if p2.returncode == 0:
                     viols.append(viol("cli-accepted-bad-input", f"direct CLI run on {spec['input_kind']} exited 0"))
